@@ -35,6 +35,14 @@ def field_count_gate(repo, chk, oid):
         return None
     row = st.targets[0].id
     header = fn.params[1]
+    skips = [x for x in ast.walk(loop) if isinstance(x, (ast.Continue, ast.Break))]
+    allowed = []
+    for n in loop.body:
+        if isinstance(n, ast.If) and '%' in ast.unparse(n.test) and 'subsampling' in ast.unparse(n.test):
+            allowed += [x for x in ast.walk(n) if isinstance(x, ast.Continue)]
+    extra = [x for x in skips if x not in allowed]
+    chk.expect(not extra, oid + 's', 'R1', fn.site(extra[0]) if extra else fn.site(loop), f'{len(skips)} continue/break in the streaming loop, {len(allowed)} of them the subsampling rule', 'every selected line reaches the parser and the field-count test',
+               'the streaming loop skips lines (continue/break) other than by the subsampling rule, e.g. a pre-check on the raw line: well-formed rows (such as CSV rows with quoted delimiters) never reach the parser and are dropped')
     pa = [ast.unparse(a) for a in pcall.args]
     lv = loop.target.id if isinstance(loop.target, ast.Name) else None
     ok_roles = len(pa) >= 5 and pa[0] == lv and pa[1] in fn.params and pa[3] in fn.params and 'map' in pa[3] and pa[4] == header
